@@ -480,7 +480,7 @@ fn fam_exprs(t: Tier) -> BoxedStrategy<Case> {
 }
 
 fn once_item(depth: u32) -> BoxedStrategy<OnceItem> {
-    let leaf = prop_oneof![8 => (0u8..6, 1..20i32, 1..50i32).prop_map(|(k, lo, span)| OnceItem::Probe(k, lo, lo + span)), 2 => (0u8..2).prop_map(OnceItem::Reuse), 1 => Just(OnceItem::Reuse(2))];
+    let leaf = prop_oneof![8 => (0u8..8, 1..20i32, 1..50i32).prop_map(|(k, lo, span)| OnceItem::Probe(k, lo, lo + span)), 2 => (0u8..2).prop_map(OnceItem::Reuse), 1 => Just(OnceItem::Reuse(2))];
     leaf.prop_recursive(depth, 24, 4, |inner| {
         prop_oneof![
             2 => (1u8..4, vec(inner.clone(), 1..4)).prop_map(|(n, b)| OnceItem::Loop(n, b)),
@@ -577,6 +577,17 @@ fn once_xml(items: &[OnceItem], c: &mut OnceCtx, out: &mut Vec<X>, nest: usize) 
                     3 => {
                         out.push(X::El(XEl::new("rect").a("data-p", format!("{k}")).a("wh", "2").a("_", format!("p{k}={{{{randint({lo}, {hi})}}}}"))));
                         c.expected.push(format!("C{k}:{}", c.rng.random_range(*lo..=*hi)));
+                    }
+                    6 => {
+                        // an id built from a random function: the element is registered and emitted under one and the same value
+                        out.push(X::El(XEl::new("rect").a("data-p", format!("{k}")).a("data-idp", "1").a("id", format!("i{k}x{{{{randint({lo}, {})}}}}", hi + 100_000)).a("wh", "2")));
+                        c.expected.push(format!("I{k}:i{k}x{}", c.rng.random_range(*lo..=*hi + 100_000)));
+                    }
+                    7 => {
+                        // a <config> element that does not touch the seed leaves the random sequence alone
+                        out.push(X::El(XEl::new("config").a("font-size", "4")));
+                        out.push(X::El(XEl::new("text").a("data-p", format!("{k}")).a("xy", "0 0").a("text", format!("{{{{randint({lo}, {hi})}}}}"))));
+                        c.expected.push(format!("T{k}:{}", c.rng.random_range(*lo..=*hi)));
                     }
                     5 => {
                         // two attributes of one element spelled identically: still two occurrences, evaluated in attribute order
@@ -676,6 +687,8 @@ fn collect_probes(e: &Element, prev_comment: &mut Option<String>, out: &mut Vec<
                             } else if el.has_class("tplr") || el.has_class("tplx") {
                                 // reuse of the rect template: label shown twice (text + data attribute)
                                 out.push(format!("R{k}:{}", el.attr("data-l").unwrap_or("?")));
+                            } else if el.has_attr("data-idp") {
+                                out.push(format!("I{k}:{}", el.attr("id").unwrap_or("?")));
                             } else if el.has_attr("data-two") {
                                 out.push(format!("Y{k}:{},{}", el.attr("x").unwrap_or("0"), el.attr("y").unwrap_or("0")));
                             } else {
